@@ -193,7 +193,7 @@ fn all_digraphs(nv: usize) -> Vec<Vec<(usize, usize)>> {
     (0..(1u64 << pairs.len())).map(|m| pairs.iter().enumerate().filter(|(i, _)| (m >> i) & 1 == 1).map(|(_, p)| *p).collect()).collect()
 }
 
-const NAME_SETS: [[&str; 8]; 8] = [
+const NAME_SETS: [[&str; 8]; 10] = [
     ["a", "b", "c", "d", "e", "f", "g", "h"],
     ["x1", "y_2", "z'", "w", "q9", "_u", "k", "m2"],
     ["é", "λ", "中", "ñ", "ß", "ö", "ü", "å"],
@@ -203,6 +203,9 @@ const NAME_SETS: [[&str; 8]; 8] = [
     ["x", "y_z", "x_y", "z", "x_y_z", "_", "y", "x__z"],
     ["v", "v_v", "v_", "_v", "vv", "v_v_v", "vvv", "v__v"],
     ["n", "n1", "n10", "n_1", "n_", "n1_0", "n100", "n1_"],
+    // names that already look like prefixed copies while the unprefixed base is NOT a vertex
+    ["v_a", "v_v_a", "b", "v_v_b", "v_b", "vv_a", "v_v_v_a", "vv_v_a"],
+    ["vv_x", "v_vv_x", "vvv_x", "y", "v_y", "vv_y", "v_v_y", "vv_vv_x"],
 ];
 
 fn job(ctx: &Ctx, job: usize, jobs: usize, thorough: bool) -> Stats {
